@@ -9,7 +9,9 @@ import (
 	"errors"
 	"fmt"
 	"io"
+	"runtime"
 	"strconv"
+	"sync"
 	"testing"
 	"time"
 )
@@ -163,11 +165,76 @@ func TestVerifReplayC18(t *testing.T) {
 			}
 		}
 	}
+	if msg := verifInterleave(); msg != "" {
+		fmt.Println("REPLAY-CONFIRMED " + msg)
+		return
+	}
 	if msg := verifCalls(); msg != "" {
 		fmt.Println("REPLAY-CONFIRMED " + msg)
 		return
 	}
-	fmt.Println("REPLAY-NOT-REPRODUCED bounded search: 5 messages x 6 chunkings, 3 cancellation points, 15 malformed frames x 3 chunkings, 4 call / reply schedules")
+	fmt.Println("REPLAY-NOT-REPRODUCED bounded search: 5 messages x 6 chunkings, 3 cancellation points, 15 malformed frames x 3 chunkings, 4 call / reply schedules, 6 concurrent senders x 40 messages on one connection")
+}
+
+// verifWire records every transport write in wire order and yields in between, so that unsynchronised senders interleave
+type verifWire struct {
+	mu  sync.Mutex
+	log [][]byte
+}
+
+func (w *verifWire) Read(p []byte) (int, error) { select {} }
+func (w *verifWire) Write(p []byte) (int, error) {
+	w.mu.Lock()
+	w.log = append(w.log, append([]byte(nil), p...))
+	w.mu.Unlock()
+	runtime.Gosched()
+	time.Sleep(50 * time.Microsecond)
+	return len(p), nil
+}
+func (w *verifWire) Close() error { return nil }
+
+// concurrent senders (notifications and calls) on one connection: the wire must be a sequence of whole frames
+func verifInterleave() string {
+	wire := &verifWire{}
+	c := NewConn(NewStream(wire))
+	ctx, cancel := context.WithCancel(context.Background())
+	defer cancel()
+	var wg sync.WaitGroup
+	for g := 0; g < 6; g++ {
+		wg.Add(1)
+		go func(g int) {
+			defer wg.Done()
+			for i := 0; i < 40; i++ {
+				if g%2 == 0 {
+					c.Notify(ctx, "note", map[string]any{"from": g, "i": i, "text": "é日本"})
+				} else {
+					cctx, ccancel := context.WithTimeout(ctx, time.Millisecond)
+					c.Call(cctx, "call", map[string]any{"from": g, "i": i}, nil)
+					ccancel()
+				}
+			}
+		}(g)
+	}
+	wg.Wait()
+	var all []byte
+	for _, p := range wire.log {
+		all = append(all, p...)
+	}
+	rest := string(all)
+	n := 0
+	for rest != "" {
+		var length int
+		if _, err := fmt.Sscanf(rest, "Content-Length: %d\r\n\r\n", &length); err != nil {
+			return fmt.Sprintf("6 concurrent senders on one connection: after %d whole frames the wire continues with %q - frames of different senders are interleaved", n, rest[:min(len(rest), 80)])
+		}
+		hdr := fmt.Sprintf("Content-Length: %d\r\n\r\n", length)
+		if len(rest) < len(hdr)+length || !json.Valid([]byte(rest[len(hdr):len(hdr)+length])) {
+			return fmt.Sprintf("6 concurrent senders on one connection: frame %d announces %d bytes but is followed by %q - frames of different senders are interleaved", n+1, length, rest[len(hdr):min(len(rest), len(hdr)+80)])
+		}
+		rest = rest[len(hdr)+length:]
+		n++
+	}
+	return ""
 }
 
 // verifScript is a Stream whose peer is scripted: what it does when the k-th call is written decides the schedule.
